@@ -23,7 +23,7 @@ def population():
 
 
 CLASSES = {"K": RW.K, "Sub": RW.Sub, "E": RW.E, "U": RW.U}
-RESULT = {"meth": 1, "other": 2, "deco": 3, "tree": 5}
+RESULT = {"meth": 1, "other": 2, "deco": 3, "tree": 5, "glob": 6}
 
 
 def run_case(c):
@@ -43,6 +43,9 @@ def run_case(c):
         text = f"{c['target']}.{m}({recvname} as who, x) > v"
     elif c["path"] == "enter" and m != "prop":
         text = f"{c['target']}.{m} > #enter"                     # the entry event of the method, for one receiver
+    elif c["path"] == "external":
+        text = f"{c['target']}.glob > BASE"                      # a global the method reads, for one receiver
+        m = "glob"
     elif c["path"] == "nested2" and c["target"] in pop and c.get("target2") in pop:
         text = f"{c['target']}.tree > {c['target2']}.tree > v"   # two object-bound levels
         m = "tree"
